@@ -23,7 +23,7 @@ FORBIDDEN = re.compile(r"\b(sorry|admit|native_decide|bv_decide|implemented_by|u
 TRUSTED_BASE = [
     "Lean 4.33.0 kernel; axioms of each theorem as printed by #print axioms (allowed: propext, Classical.choice, Quot.sound)",
     "hand-written Lean model of entrait_macros (lean/EntraitModel) being faithful outside the sampled inputs",
-    "correspondence machinery: harness encoder syn->model AST (validated per case by print round-trip), re-parser of the real output (syn), build.rs rewrite of lib.rs for in-process execution, token flattening without spans/spacing",
+    "correspondence machinery: harness encoder syn->model AST (validated per case by print round-trip), re-parser of the real output (syn), build.rs rewrite of lib.rs for in-process execution, token flattening without spacing and syntax contexts (locations of forwarded identifiers are observed: <cases>.spans)",
     "syn 2.0.119 / quote / proc-macro2 1.0.107 (front end and printing; proc_macro2 fallback implementation instead of rustc's proc_macro server)",
     "rustc semantics and the unimock / mockall / async-trait / implementation crates: modelled only as far as the property predicate states; sampled by compile-and-run probes where the check says so",
 ]
